@@ -1,4 +1,5 @@
 #!/bin/bash
+export VERIF_EVIDENCE_DIR=/verif/work/mutation-evidence; mkdir -p $VERIF_EVIDENCE_DIR
 # usage: mutsed.sh <file-under-/repo> <sed-expr> <check ids...>
 # scratch helper for sensitivity experiments: applies a sed edit to /repo, runs checks, reverts.
 f=$1; e=$2; shift 2
